@@ -4,6 +4,7 @@ CONSTANTS
   Statuses = {"run"}
   WithExc = FALSE
   MaxCount = 5
+  UseCritical = FALSE
   Hazard = "none"
 SPECIFICATION Spec
 INVARIANT TypeOK
